@@ -328,8 +328,7 @@ def check_registry(repo, rep):
     rep.floor(rid, 8)
 
 
-def check_cancel_hook_submission(repo, rep):
-    rid = "C05-R4c"
+def check_cancel_hook_submission(repo, rep, rid="C05-R4c"):
     rep.rule(rid, "an order submitted from a hook that runs inside Strategy._execute_cancel (on_cancel / on_route_canceled) stays reported: "
                   "_execute_cancel is interpreted in backtest mode (not unit testing) with an on_cancel hook that registers a new ACTIVE "
                   "order; afterwards that order must still be in OrdersState.storage and active_storage - otherwise it is an active "
